@@ -45,6 +45,9 @@ func (c *c11) Cases(tier string, seed int64) []core.Case {
 	if tier != "thorough" {
 		// large enough that a different strategy for big products would apply
 		dims = append(dims, 101, 102, 103, 128, 160)
+		// 2^16 elements and more: a different way to fill or multiply big
+		// matrices would apply here
+		dims = append(dims, 256, 260)
 	}
 	if tier == "thorough" {
 		for n := 41; n <= 130; n++ {
@@ -62,6 +65,13 @@ func (c *c11) Cases(tier string, seed int64) []core.Case {
 			}
 			nc := []int{1, n, n + 8 + r.Intn(9), 24 + r.Intn(8), 1 + r.Intn(2*n+40)}[r.Intn(5)]
 			cs = append(cs, core.MkCase(fmt.Sprintf("%s-n%d-nc%d", k, n, nc), c11Params{k, n, nc, r.Int63()}))
+		}
+	}
+	// few rows, very many columns (the shape of a parity matrix for a set of
+	// tens of thousands of slices): more than 2^16 elements in the right-hand side
+	for _, w := range [][2]int{{4, 16400}, {3, 22000}, {2, 40000}, {5, 13108}} {
+		for _, k := range []string{"random", "vandermonde"} {
+			cs = append(cs, core.MkCase(fmt.Sprintf("wide-%s-n%d-nc%d", k, w[0], w[1]), c11Params{k, w[0], w[1], r.Int63()}))
 		}
 	}
 	for i := 0; i < 4; i++ {
